@@ -109,8 +109,10 @@ LEVEL_TEXT = (
     "partial file never makes the load raise; nineteen defining relations of the derived constants (V, A, mass, "
     "mass_solute, mass_water, T_eq_l, depression, cp_solution, hl, alpha, beta_solution, lambda_solution, copied "
     "values, presence of the VISF / spatial entries); for well-typed configurations an exception is raised iff the "
-    "enumerations are outside the explicit decision table, and then NotImplementedError; Snowing.run's dispatch takes "
-    "a branch on every successful load. Hypotheses, not claims: distinct keys per mapping; the edge case 'valid key "
+    "enumerations are outside the explicit decision table, and then NotImplementedError. Partial: 'never later' is "
+    "proved only for Snowing.run's dispatch on dimensionality (later uses of arrangement/configuration are other "
+    "properties' models). Hypotheses, not claims: hK - the paths calculateDerived reads use key names of the default "
+    "file (proved for the shipped default, default_read_paths_known); distinct keys per mapping; the edge case 'valid key "
     "nested in the wrong place' (documented in the code) is excluded by hypothesis in layering_exact / "
     "partial_file_loads.")
 
